@@ -156,7 +156,16 @@ func genCase(t *rapid.T, nodeFailure bool) Case {
 			c.Steps = append(c.Steps, st)
 			continue
 		}
-		switch x := rapid.IntRange(0, 15).Draw(t, "op"); {
+		switch x := rapid.IntRange(0, 16).Draw(t, "op"); {
+		case x == 16:
+			// sessions of one tenant go away with deliveries in flight; sessions of another tenant
+			// arrive right afterwards; then the acknowledgement deadlines pass
+			a := rapid.IntRange(0, nmp-1).Draw(t, "dyingTenant")
+			b := (a + rapid.IntRange(1, nmp-1).Draw(t, "arrivingTenant")) % nmp
+			payload++
+			c.Steps = append(c.Steps, sim.Step{Op: "recycle", Node: rapid.IntRange(0, c.Nodes-1).Draw(t, "node"), MP: mountNames[a], ClientID: mountNames[b],
+				C: rapid.IntRange(1, 8).Draw(t, "dying"), IdleMs: int64(rapid.SampledFrom([]int{1, 8, 30}).Draw(t, "arriving")),
+				Topic: rapid.SampledFrom(topics).Draw(t, "topic"), Payload: fmt.Sprintf("p%d", payload)})
 		case x < 5:
 			c.Steps = append(c.Steps, sim.Step{Op: "sub", C: ci, Filters: []string{rapid.SampledFrom(filters).Draw(t, "filter")}, QoS: []int{rapid.IntRange(0, 1).Draw(t, "qos")}})
 		case x < 6:
